@@ -3,7 +3,6 @@
 #define VERIF_JWKS_C_H
 #include "jwk_parse_c.h"
 #include "jwt_c.h"
-extern const char *g_dec_last_src; extern const void *g_dec_last_res; extern int g_dec_last_len;
 #ifdef VERIF_TU_JWKS
 static int process_octet(json_t *jwk, jwk_item_t *item);
 static void jwk_process_values(json_t *jwk, jwk_item_t *item);
@@ -70,7 +69,7 @@ __CPROVER_requires(VJ_IS_STR(jwk) ==> g_jwk_tracked_str == VJ_STR(jwk))
 __CPROVER_requires(!VJ_IS_STR(jwk) ==> g_jwk_tracked_str == NULL)
 __CPROVER_requires(g_jwk_tracked_bin == NULL && g_push_name_of_tracked == NULL && g_push_count == 0 && g_lib_fail == 0 && g_ossl_bits <= 0x100000)
 __CPROVER_requires(JWKS_OPS_OBEY)
-__CPROVER_assigns(jwk_set->error, SPEC_ERRMSG_FRAME(jwk_set), JWK_GHOSTS, g_dec_last_src, g_dec_last_res, g_dec_last_len)
+__CPROVER_assigns(jwk_set->error, SPEC_ERRMSG_FRAME(jwk_set), JWK_GHOSTS)
 /* C17: a NULL result (allocation failure) is reported on the set; the caller's JSON stays intact (frees nothing) */
 __CPROVER_ensures(__CPROVER_return_value == NULL ==> (jwk_set->error != 0 && jwk_set->error_msg[0] != 0))
 __CPROVER_ensures(jwk->type == JSON_OBJECT && jwk->refcount == __CPROVER_old(jwk->refcount))
